@@ -122,13 +122,14 @@ class PathState:
         p.eqs = dict(self.eqs)
         p.origin = getattr(self, "origin", None)
         p.cut = getattr(self, "cut", False)
+        p.peeled = getattr(self, "peeled", frozenset())
         return p
 
 
 class Exec:
     def __init__(self, f, call_handler, havoc=None, word_args=(), unroll=False, arg_consts=None, int_cells=None, auto=False,
                  split_max=8, starts=None, pre_conds=(), callee_writes=None, word_phis=None, fresh_per_entry=False, exit_eq=None, unrotate=False,
-                 head_consts=None, congr=None, cell_alias=None):
+                 head_consts=None, congr=None, cell_alias=None, peel=()):
         """call_handler(ex, path, inst, callee, argvalues) -> result value or None
         havoc(ex, path, header) is called when a fresh iteration starts at a loop header"""
         self.f = f
@@ -141,6 +142,7 @@ class Exec:
         self.word_args = set(word_args)
         self.unroll = unroll
         self.arg_consts = dict(arg_consts or {})
+        self.peel = set(peel or ())      # loop heads whose first iteration belongs to the entry path (helper values that are special in the first round only)
         self.cell_alias = dict(cell_alias or {})   # integer cell (obj, off, n) -> cell whose unknown head value it shares (an inferred invariant: both hold the same value at every loop entry and back edge)
         self.int_cells = int_cells      # predicate (obj, off, nbytes) -> treat the cell as an integer (linear form), not as data bits
         self.auto = auto                # loops whose header test is decided are followed; others get one generic iteration
@@ -584,9 +586,14 @@ class Exec:
                         for q in self._split(p, sp):
                             work.append((b, pred, q, "fork"))
                         return
+            if (b in self.heads and pred != "fresh" and not self.unroll and not follow and b in self.peel and pred not in self.heads[b]["blocks"]
+                    and b not in getattr(p, "peeled", frozenset()) and getattr(p, "origin", None) is None):
+                # peeled loop: the entry path goes through the first iteration itself and meets the loop head proper at its back edge
+                p.peeled = getattr(p, "peeled", frozenset()) | {b}
+                follow = True
             if b in self.heads and pred != "fresh" and not self.unroll and not follow:
                 L = self.heads[b]
-                if pred in L["blocks"]:
+                if pred in L["blocks"] and not (b in getattr(p, "peeled", frozenset()) and getattr(p, "origin", None) is None):
                     # back edge: bind phi values for reporting, then stop
                     q = p
                     for iid in f.blocks[b].insts:
